@@ -1,6 +1,8 @@
 //! C01 — named-dimension addressing.  See lean/Driver/C01.lean for the protocol.
 
 use crate::util::*;
+#[path = "surface.rs"]
+mod surface;
 use crate::with_d;
 use easy_ml::tensors::indexing::TensorAccess;
 use easy_ml::tensors::views::{TensorMut, TensorRef};
@@ -343,6 +345,19 @@ pub fn gen(g: &mut Gen) {
     }
     gen_large_cases(g);
     gen_names_cases(g);
+    gen_surface_cases(g);
+}
+
+/// "API surface": every public read / write route of TensorAccess, TensorTranspose and Tensor
+/// (see surface.rs), on shapes of dimensionality ≥ 3 with unequal lengths first.
+fn gen_surface_cases(g: &mut Gen) {
+    for lens in surface::SURFACE_SHAPES {
+        let shape = named(g, lens);
+        let n: usize = lens.iter().product();
+        g.op(format!("@ from {} {}", show_shape(&shape), n));
+        let names: Vec<&'static str> = shape.iter().map(|s| s.0).collect();
+        surface::gen_surface_ops(g, &names);
+    }
 }
 
 /// Adversarial dimension names: the names the library uses internally ("row", "column", "r",
@@ -787,6 +802,16 @@ impl Runner {
                 on_state!(&mut self.st, s => dim(s, name, via))
             }
             ["names", ..] => on_state!(&mut self.st, s => names_op(s)),
+            [op @ ("sread" | "swrite"), kind, names_s, rest @ ..] => {
+                let names = parse_names(names_s);
+                let route = opt_arg("route", rest).unwrap_or("");
+                let read = *op == "sread";
+                on_state!(&mut self.st, s => if read {
+                    surface::sread(&s.tensor, kind, &names, route)
+                } else {
+                    surface::swrite(&s.tensor, kind, &names, route)
+                })
+            }
             ["@", kind, shape_s, n_s] => {
                 let shape = parse_shape(shape_s);
                 let n: usize = n_s.parse().unwrap();
